@@ -77,8 +77,10 @@
       as RDATA and the MAC of (f); it rests on `ServerContent.signed_answer_final` (the final writer of
       the answering phase is `Good`: the induction over `handle_non_axfr_query` that ties the ghost
       log to the writer's content layout);
-  (3) when the reply's TSIG does not fit (UDP): the response is TC / NOERROR without TSIG — (e), state
-      level only.
+  (3) (closed) when the reply's TSIG does not fit (UDP): `C10_decoded_tsig_does_not_fit` — every decoding
+      of the response has TC set, RCODE 0, no answer / authority data, the OPT record iff reached and no
+      record of type 250 (`ServerContent.signed_nofit_final`: the final writer is the scan state with
+      RCODE 0 and TC set, no TSIG pending, `Good`).
 -/
 import QV.Properties.C11
 import QV.Proofs.ServerTsig
@@ -87,6 +89,7 @@ import QV.Proofs.ServerSigned
 import QV.Proofs.ServerSignedDecode
 import QV.Proofs.ServerSignedOwner
 import QV.Proofs.ServerAnswerDecode
+import QV.Proofs.ServerSignedNoFit
 
 namespace QV.C10
 open QV QV.Server QV.Writer QV.Tsig QV.ServerTsig
@@ -623,6 +626,36 @@ theorem C10_decoded_authenticated_answer (cfg : Cfg) (hcfg : ServerSafety.CfgWF 
   obtain ⟨rest, o, g1, g2, g3, g4, g5, g6, _, _⟩ := tsig_of_good macFn F _ hG _ hts b mac hf d hd
   refine ⟨rest, o, g1, g2, g3, g4, g5, ?_⟩
   rw [g6, hmac']; rfl
+
+open QV.ServerScan in
+/-- **(e) decoded: the reply TSIG does not fit** (RFC 8945 §5.3; `set_tsig_or_truncate`, the repair of
+    D03).  Whether the request was rejected by the decision table and the prescribed reply TSIG does
+    not fit, or it was authenticated and the response TSIG does not fit (`ServerContent.NoFit`): every
+    decoding of the response has TC set, RCODE 0 (NOERROR), AA clear, empty answer and authority
+    sections, and an additional section that is exactly the OPT record iff the scan reached one — in
+    particular no record of type 250: the response carries no TSIG. -/
+theorem C10_decoded_tsig_does_not_fit (cfg : Cfg) (tr : Transport) (now bufLen : Nat) (req : Bytes)
+    (hbuf : minBuf tr cfg.payload ≤ bufLen) (hpay : 512 ≤ cfg.payload) (hp16 : cfg.payload ≤ 65535)
+    (hreq : req.size ≤ Rdata.USIZE_MAX)
+    (hr : (Spec.Server.specScanWith (catKind cfg) cfg.payload req).respond = true)
+    (hv : (Spec.Server.specScanWith (catKind cfg) cfg.payload req).verdict = .tsigReached) :
+    ∃ (t : ReadTsigRr) (mw : Bytes) (r' : Reader.Reader), r'.octets = req ∧ r'.cursor ≤ req.size ∧
+      ∀ nowT kn, TimeSigned.tryFromUnix now = some nowT → WName.parse t.keyName = some (kn, []) →
+        ServerContent.NoFit cfg nowT t mw kn (preTsigState cfg tr bufLen req) →
+        ∀ b, handleMessage cfg tr now bufLen req = .ok (some b) →
+          ∀ d, Spec.specDecodeMsg b = some d →
+            d.tc = true ∧ d.rcode = 0 ∧ d.aa = false ∧ d.an = [] ∧ d.ns = [] ∧
+            d.ar.length = (if (Spec.Server.specScanWith (catKind cfg) cfg.payload req).edns then 1 else 0) ∧
+            (∀ o ∈ d.ar, o.ty = 41) ∧ ∀ o ∈ d.ar, o.ty ≠ 250 := by
+  obtain ⟨t, mw, r', h1, h2, h3⟩ := ServerContent.signed_nofit_final cfg tr now bufLen req hbuf hpay hp16 hreq hr hv
+  refine ⟨t, mw, r', h1, h2, fun nowT kn hnow hkn hnf b hb d hd => ?_⟩
+  obtain ⟨F, mac, hf, hG, hts, he, hh⟩ := h3 nowT kn hnow hkn hnf b hb
+  obtain ⟨r1, r2, r3, r4, r5, r6, r7⟩ :=
+    ServerContent.decoded_nofit F _ (qBody_norecs _) hG hts hh b mac hf d hd
+  refine ⟨r1, r2, r3, r4, r5, ?_, r7, fun o ho h => by rw [r7 o ho] at h; cases h⟩
+  rw [r6]
+  cases hed : (Spec.Server.specScanWith (catKind cfg) cfg.payload req).edns <;> rw [hed] at he <;>
+    cases hw : F.edns <;> rw [hw] at he <;> simp at he ⊢
 
 open QV.ServerScan in
 /-- **every signed response — answers from loaded zones included.**  With `w1` the writer that
